@@ -43,6 +43,10 @@ Definition normalize_title_quotes (t : str) : str :=
 
 Definition truthy (o : option str) : bool := match o with Some (_ :: _) => true | _ => false end.
 
+(* _link_destination: empty or containing whitespace -> <...> *)
+Definition link_destination (d : str) : str :=
+  if is_nil d || existsb is_space d then [60%N] ++ d ++ [62%N] else d.
+
 (* longest run of character c in s *)
 Fixpoint longest_run_aux (c : N) (s : str) (cur best : nat) : nat :=
   match s with
@@ -142,12 +146,12 @@ Section Render.
                 else ([91%N] ++ t ++ [93; 91]%N ++ label ++ [93%N], c')
             | None =>
                 let tt := match link_title with Some x => [sp] ++ x | None => [] end in
-                ([91%N] ++ t ++ [93; 40]%N ++ dest ++ tt ++ [41%N], c')
+                ([91%N] ++ t ++ [93; 40]%N ++ link_destination dest ++ tt ++ [41%N], c')
             end
         | KImage dest title =>
             let '(t, c') := kids c cur in
             let tt := if truthy title then [sp] ++ normalize_title_quotes (match title with Some x => x | None => [] end) else [] in
-            ([33; 91]%N ++ t ++ [93; 40]%N ++ dest ++ tt ++ [41%N], c')
+            ([33; 91]%N ++ t ++ [93; 40]%N ++ link_destination dest ++ tt ++ [41%N], c')
         | KAuto dest => ([60%N] ++ dest ++ [62%N], cur)
         | KUrl dest => (dest, cur)
         end
@@ -158,6 +162,15 @@ Section Render.
     | [] => ([], cur)
     | x :: r => let '(a, c1) := render_inl h x cur in
                 let '(b, c2) := render_inls h r c1 in (a ++ b, c2)
+    end.
+
+  (* re.sub(r"(?<!\\)\n", " ", s): newlines not preceded by a backslash become spaces *)
+  Fixpoint join_soft_breaks (prev : option N) (s : str) : str :=
+    match s with
+    | [] => []
+    | c :: s' =>
+        (if N.eqb c 10 && negb (match prev with Some p => N.eqb p 92 | None => false end) then sp else c)
+        :: join_soft_breaks (Some c) s'
     end.
 
   (* ---- leaves ---- *)
@@ -171,7 +184,8 @@ Section Render.
     let fence := repeat fc (Nat.max flen (min_fence_length code fc)) in
     let first := r_prefix st ++ fence ++ lang_text in
     let empty_pref := rstrip (r_prefix2 st) in
-    let body := map (fun l => match l with [] => empty_pref | _ => r_prefix2 st ++ l end) (splitlines code) in
+    let code_lines := match code with [] => [] | _ => split_on nlc code end in
+    let body := map (fun l => match l with [] => empty_pref | _ => r_prefix2 st ++ l end) code_lines in
     let lines := first :: body ++ [r_prefix2 st ++ fence] in
     (join [nlc] lines ++ [nlc], set_suppress false (next_prefix st)).
 
@@ -214,7 +228,8 @@ Section Render.
         w <- wrapper children (r_prefix st) (r_prefix2 st) ;;
         ret (w ++ [nlc], set_cur [] (next_prefix st))
     | LHeading _ level c =>
-        let '(t, _) := render_inls true c [] in
+        let '(t0, _) := render_inls true c [] in
+        let t := join_soft_breaks None t0 in
         let st := set_cur [] st in
         if endswith t [bsl] then
           ret (r_prefix st ++ hashes level ++ [sp] ++ t ++ [nlc], next_prefix st)
@@ -229,7 +244,7 @@ Section Render.
           let out := match strip (r_prefix st) with [] => [nlc] | _ => r_prefix st ++ [nlc] end in
           ret (out, next_prefix (set_suppress true st))
     | LLinkRef label dest title =>
-        let lt := dest ++ (if truthy title then [sp] ++ normalize_title_quotes (match title with Some x => x | None => [] end) else []) in
+        let lt := dest ++ (if truthy title then [sp] ++ (match title with Some x => x | None => [] end) else []) in
         ret (r_prefix st ++ [91%N] ++ label ++ [93; 58; 32]%N ++ lt ++ [nlc], set_suppress true (next_prefix st))
     | LTable delims rows =>
         match rows with
@@ -238,12 +253,21 @@ Section Render.
             let '(h, c1) := render_row head (r_cur st) in
             let dl := [124; 32]%N ++ join bar_sep (map delim_norm delims) ++ [32; 124; 10]%N in
             let '(b, c2) := render_rows body c1 in
-            ret (h ++ dl ++ b, set_cur c2 st)
+            let lines := removelast (split_on nlc (h ++ dl ++ b)) in
+            let out := match lines with
+                       | [] => []
+                       | l0 :: rest => (r_prefix st ++ l0 ++ [nlc]) ++ concat (map (fun l => r_prefix2 st ++ l ++ [nlc]) rest)
+                       end in
+            ret (out, next_prefix (set_cur c2 st))
         end
     | LHtml body => ret (r_prefix st ++ body, next_prefix st)
     end.
 
   Definition spaces (n : nat) : str := repeat sp n.
+
+  (* "\n".join(line if line else marker for line in result.split("\n")) *)
+  Definition mark_empty_lines (marker : str) (s : str) : str :=
+    join [nlc] (map (fun l => match l with [] => marker | _ => l end) (split_on nlc s)).
 
   (* ---- blocks ---- *)
   Fixpoint render_blk (b : blk) (st : rst) {struct b} : M (str * rst) :=
@@ -278,7 +302,7 @@ Section Render.
                         let sub := if ordered then spaces (length (zstr num) + 2) else [sp; sp] in
                         let p := r_prefix st in let p2 := r_prefix2 st in
                         a <- render_blk child (set_prefixes (p ++ pfx) (p2 ++ sub) st) ;;
-                        b <- items rest (i + 1) (set_prefixes p p2 (snd a)) ;;
+                        b <- items rest (i + 1) (next_prefix (set_prefixes p p2 (snd a))) ;;
                         ret (fst a ++ fst b, snd b)
                     end) c 0 st ;;
             ret (fst r, next_prefix (set_tight old_tight (snd r)))
@@ -287,20 +311,25 @@ Section Render.
               if r_tight st then ([], st)
               else if r_suppress st then ([], set_suppress false st)
               else (strip (r_prefix2 st) ++ [nlc], st) in
-            r <- kids c st ;;
-            ret (pre ++ fst r, snd r)
+            match c with
+            | [] => ret (pre ++ rstrip (r_prefix st) ++ [nlc], next_prefix st)
+            | _ => r <- kids c st ;; ret (pre ++ fst r, snd r)
+            end
         | KQuote =>
             let st := set_skip false st in
             let p := r_prefix st in let p2 := r_prefix2 st in
             r <- kids c (set_prefixes (p ++ [62; 32]%N) (p2 ++ [62; 32]%N) st) ;;
             let st' := set_prefixes p p2 (snd r) in
-            ret (rstrip_nl (fst r) ++ [nlc], set_suppress false (next_prefix st'))
+            ret (mark_empty_lines (rstrip (r_prefix2 (snd r))) (rstrip_nl (fst r)) ++ [nlc],
+                 set_suppress false (next_prefix st'))
         | KAlert atype =>
             let st := set_skip false st in
+            let header := r_prefix st ++ [62; 32; 91; 33]%N ++ atype ++ [93; 10]%N in
+            let st := next_prefix st in
             let p := r_prefix st in let p2 := r_prefix2 st in
             r <- kids c (set_prefixes (p ++ [62; 32]%N) (p2 ++ [62; 32]%N) st) ;;
             let st' := set_prefixes p p2 (snd r) in
-            ret ([62; 32; 91; 33]%N ++ atype ++ [93; 10]%N ++ rstrip_nl (fst r) ++ [nlc],
+            ret (header ++ mark_empty_lines (rstrip (r_prefix2 (snd r))) (rstrip_nl (fst r)) ++ [nlc],
                  set_suppress false (next_prefix st'))
         | KFootDef label =>
             let p := r_prefix st in let p2 := r_prefix2 st in
